@@ -153,8 +153,8 @@ def run_case(case, ctx):
             if os.path.exists(ipath):
                 os.remove(ipath)
             util.write_file(path, bad)
-            if ib is not None and own in ('path', 'pathlib'):
-                util.write_file(ipath, ib)
+            if ib is not None and own in ('path', 'pathlib', 'fileobj', 'rawfileobj'):
+                util.write_file(ipath, ib)       # (beside a caller's file object the index is not used; it must not change who owns what)
             elif ib is not None:
                 continue     # an index beside the file is only discovered for paths
             if own in ('pathlib', 'fileobj', 'rawfileobj') and (case['s'] + len(ik) + len(own)) % 3:
@@ -416,6 +416,16 @@ def one_call(ctx, TdmsFile, api, own, path, bad, info, fresh_vals, rng, ik):
                     ctx.violation('file-chunk-stream-after-close-returned', info)
             except Exception:
                 pass
+            # iterators that were suspended in mid-stream when the file was closed: the next chunk needs the file
+            for it_ in [h for h in held if hasattr(h, '__next__')]:
+                ctx.count('after_close_ops')
+                try:
+                    nxt = next(it_)
+                except StopIteration:
+                    continue
+                except Exception:
+                    continue
+                ctx.violation('suspended-iterator-continues-after-close/%s' % own, dict(info, got=type(nxt).__name__))
             tf.close()
     except Exception as ex:
         raised = ex
